@@ -17,7 +17,7 @@ import (
 // One symptom per execution: the failures of an execution are collected and
 // only the one with the highest priority is reported, so that one root cause
 // does not surface under a dozen fingerprints.
-var prio = []string{"subscribe-failed", "emit-error", "event-duplicated", "foreign-signal-delivered", "event-order", "event-lost",
+var prio = []string{"subscribe-failed", "emit-error", "=event-dropped-at-cancel", "event-duplicated", "foreign-signal-delivered", "event-order", "event-lost",
 	"late-event-lost", "disturbed-by-other-unsubscribe", "event-after-cancel", "channel-not-closed", "event-after-unregister-ack"}
 
 type failure struct{ clause, detail string }
@@ -51,6 +51,22 @@ type window struct {
 	closed      bool
 	cancel      func()
 	err         error
+	conn        *fx.Conn // the subscriber's connection (wire tap), may be nil
+}
+
+// arrivedBeforeCancel reports whether an Event frame of tick(n) reached the
+// subscriber's connection before its cancel function was called.
+func (w *window) arrivedBeforeCancel(n int32) bool {
+	if w.conn == nil {
+		return false
+	}
+	for _, f := range w.conn.In.Frames {
+		if f.Hdr.Type == net.Event && f.Hdr.Action == 105 && len(f.Payload) == 4 && int32(f.Payload[0]) == n &&
+			(w.cancelStart == 0 || f.Step < w.cancelStart) && f.Step > w.subReturned {
+			return true
+		}
+	}
+	return false
 }
 
 type emission struct {
@@ -60,8 +76,11 @@ type emission struct {
 }
 
 // subscribe opens one subscription window on proxy p.
-func subscribe(name string, p probe.ProbeProxy) *window {
+func subscribe(name string, p probe.ProbeProxy, conn ...*fx.Conn) *window {
 	w := &window{}
+	if len(conn) > 0 {
+		w.conn = conn[0]
+	}
 	cancel, ch, err := p.SubscribeTick()
 	if err != nil {
 		w.err = err
@@ -125,6 +144,13 @@ func (w *window) check(name string, ems []emission) {
 			if v == r {
 				found = true
 			}
+		}
+		if !found && w.cancelStart != 0 && w.arrivedBeforeCancel(r) {
+			// the frame reached the subscriber's connection in time and was
+			// dropped by the client when the cancellation raced its
+			// forwarding goroutines: property-wide fingerprint
+			failf("=event-dropped-at-cancel", "tick(%d) was emitted and reached the subscriber's connection before %s asked to cancel (step %d), but the client's forwarding goroutine saw the cancellation first and dropped it: got %v", r, name, w.cancelStart, w.got)
+			return
 		}
 		if !found {
 			failf("event-lost/"+name, "tick(%d) was emitted entirely between the subscription's acknowledgement (step %d) and its cancellation (step %d) but was not delivered: got %v, required %v",
@@ -216,12 +242,12 @@ func body(sameClient bool, fine bool) func() {
 		var a1, a2, b1 *window
 		var ems []emission
 		wa := vrt.GoWorker("subscriber-A", func() {
-			a1 = subscribe("A1", pA)
+			a1 = subscribe("A1", pA, c1)
 			a1.stop()
-			a2 = subscribe("A2", pA)
+			a2 = subscribe("A2", pA, c1)
 		})
 		wb := vrt.GoWorker("subscriber-B", func() {
-			b1 = subscribe("B", pB)
+			b1 = subscribe("B", pB, c2)
 		})
 		we := vrt.GoWorker("emitter", func() {
 			for _, e := range []emission{{"tick", 1, 0, 0}, {"tick", 2, 0, 0}, {"other", 9, 0, 0}, {"tick", 3, 0, 0}} {
@@ -376,7 +402,7 @@ func three() {
 	cs := []*fx.Conn{w.MustConnect(), w.MustConnect(), w.MustConnect()}
 	var ws []*window
 	for i, c := range cs {
-		ws = append(ws, subscribe(fmt.Sprintf("S%d", i), c.Probe(1)))
+		ws = append(ws, subscribe(fmt.Sprintf("S%d", i), c.Probe(1), c))
 	}
 	vrt.Quiesce()
 	vrt.Explore()
